@@ -14,6 +14,8 @@ import (
 
 var runners = map[string]func(*Ctx){
 	"C01": runC01,
+	"C02": runC02,
+	"C03": runC03,
 	"C06": runC06,
 	"C07": runC07,
 	"C14": runC14,
